@@ -884,3 +884,12 @@ V("c20-http-url-no-path-ok", "C20", "fire", "C20.R7",
 V("c17-loadfile-shared-context", "C17", "fire", "C17.R3",
   (SLF, "    def __init__(self):\n        self.top = Section()\n        self.sections = []",
         "    top = Section()\n\n    def __init__(self):\n        self.sections = []"))
+V("c07-gettype-unguarded", "C07", "fire", "C07.R5",
+  (INFO, "        n = name.lower()\n        try:\n            return self._types[n]\n        except KeyError:\n            raise ZConfig.SchemaError(\"unknown type name: \" + repr(name))",
+         "        n = name.lower()\n        return self._types[n]"))
+V("c07-keypairs-unguarded", "C07", "fire", "C07.R5",
+  (CM, "        if name in self.keypairs:\n            L = self.keypairs[name]\n        else:\n            L = []\n            self.keypairs[name] = L",
+       "        L = self.keypairs[name]"))
+V("c07-defines-get-ok", "C07", "silent", None,
+  (CF, "        if defname in self.defines:\n            if self.defines[defname] != defvalue:",
+       "        if defname in self.defines.keys():\n            if self.defines[defname] != defvalue:"))
